@@ -146,7 +146,7 @@ def _mkey(which, name):
   return 'p_' + name[2:] if which == 'plain2' else name
 
 _STATE = {}
-CFG_KEYS = ('pool_seed', 'api', 'batches', 'model', 'form', 'cform', 'idtype', 'maskdt', 'arr', 'kw', 'ctx', 'pool', 'again', 'forder', 'nf')
+CFG_KEYS = ('pool_seed', 'api', 'batches', 'model', 'form', 'cform', 'idtype', 'maskdt', 'arr', 'kw', 'ctx', 'pool', 'again', 'forder', 'nf', 'layout', 'bkind', 'pkind')
 
 
 def plain2_grid():
@@ -240,6 +240,11 @@ def make_pool(seed, variant='std'):
   preds[N_REAL - 1] *= np.float32(2.0 ** 100)
   pred[N_REAL - 2] *= np.float32(2.0 ** -100)
   preds[N_REAL - 2] *= np.float32(2.0 ** -100)
+  # offset logits (softmax is shift invariant): +1e4 / -1e4 added to every logit of two real rows
+  pred[N_REAL - 3] += np.float32(1e4)
+  preds[N_REAL - 3] += np.float32(1e4)
+  pred[N_REAL - 4] -= np.float32(1e4)
+  preds[N_REAL - 4] -= np.float32(1e4)
   domb = np.array([rng.randrange(ND) for _ in range(n)], np.int32)
   dom2 = np.array([rng.randrange(2) for _ in range(n)], np.int32)
   domb[ZERO] = dom2[ZERO] = 0
@@ -322,7 +327,7 @@ def gen_batches(rng, n_real, sizes=(4, 2, 1), masked=True, fully_masked=0.12, nf
 
 
 def configs(tier, rng):
-  n = {'quick': 24, 'thorough': 800, 'search': 700}.get(tier, 24)
+  n = {'quick': 20, 'thorough': 800, 'search': 700}.get(tier, 20)
   seeds = [rng.randrange(1, 10 ** 6) for _ in range(2 if tier == 'quick' else 10)]
   out = []
   fixed = [
@@ -358,7 +363,8 @@ def configs(tier, rng):
     cfg = {'pool_seed': seed, 'api': api, 'batches': b, 'model': model,
            'form': rng.choice(['list', 'tuple', 'iter', 'gen', 'map', 'partial'] + (['view', 'view'] if not isinstance(b, list) else [])),
            'cform': rng.choice(['list', 'tuple', 'gen']), 'idtype': rng.choice(['bytes', 'str', 'int', 'sentinel']),
-           'forder': rng.randrange(0, 9),
+           'forder': rng.randrange(0, 9), 'layout': rng.choice(LAYOUTS), 'bkind': rng.choice(['dict'] * 5 + ['ordered']),
+           'pkind': rng.choice(['dict'] * 8 + ['tuple', 'namedtuple', 'none', 'ordered']),
            'maskdt': rng.choice(['bool'] * 9 + ['int32', 'float32', 'uint8']), 'arr': rng.choice(['np', 'np', 'jax']),
            'kw': rng.random() < 0.25}
     if i % 6 == 2:
@@ -460,7 +466,7 @@ def generate(tier, rng):
       yield {'kind': 'evaluator', **cfg, 'metric': name, 'observe': list(slots[(j * 7 + 3) % len(slots)])}
   for cfg in algebra_configs(tier, rng):
     for j, name in enumerate(METRIC_NAMES if cfg['model'] == 'dict' else PLAIN_NAMES):
-      yield {'kind': 'algebra', **cfg, 'metric': name, 'jit_example': tier != 'quick' or j % 3 == (len(cfg['rows']) % 3)}
+      yield {'kind': 'algebra', **cfg, 'metric': name, 'jit_example': tier != 'quick' or j % 5 == (len(cfg['rows']) % 5)}
   for cfg in configs(tier, rng):
     names = NAMES[cfg['model']] or METRIC_NAMES
     if cfg.get('pool') == 'lowp':
@@ -523,19 +529,33 @@ def _view(cfg, pool):
   return ds.batch(batch_size=spec['batch_size'])
 
 
-def _mk_batch(pool, b, maskdt='bool', arr='np', forder=0):
+LAYOUTS = ['C', 'F', 'T', 'step2', 'neg', 'col', 'ro']
+
+
+def _layout(a, how):
+  """The same values in another memory layout (see tools/harness/c07.py)."""
+  from harness import c07
+  return c07._layout(np.asarray(a), how)  # pylint: disable=protected-access
+
+
+def _mk_batch(pool, b, maskdt='bool', arr='np', forder=0, layout='C', bkind='dict'):
   import fedjax
   import jax.numpy as jnp
   rows = np.array(b['rows'], dtype=np.int64)
   out = {k: v[rows] for k, v in pool.items()}
   if b['mask'] is not None:
     out[fedjax.EXAMPLE_MASK_KEY] = np.array(b['mask'], dtype=np.bool_).astype(np.dtype(maskdt))
+  if layout != 'C' and arr != 'jax':
+    out = {k: _layout(v, layout) for k, v in out.items()}
   if arr == 'jax':
     out = {k: jnp.asarray(v) for k, v in out.items()}
   if forder:                                     # insertion order of the features (mask first / last / in the middle)
     keys = list(out)
     r = forder % len(keys)
     out = {k: out[k] for k in keys[r:][::-1] + keys[:r]}
+  if bkind == 'ordered':
+    import collections
+    out = collections.OrderedDict(out)
   return out
 
 
@@ -556,9 +576,25 @@ def _deliver(feed, form):
   return list(feed)
 
 
+def _params(pkind):
+  """Model parameters in different container kinds (they are only passed through to apply_for_eval)."""
+  import collections
+  a, b = np.zeros(2, np.float32), np.ones((1, 2), np.float32)
+  if pkind == 'tuple':
+    return (a, (b, None))
+  if pkind == 'namedtuple':
+    return collections.namedtuple('P', ['w', 'b', 'none'])(a, b, None)
+  if pkind == 'none':
+    return None
+  if pkind == 'ordered':
+    return collections.OrderedDict([('z', a), ('a', {'b': b})])
+  return {'p': a}
+
+
 def _snapshot(feed, params):
-  return ([(sorted(b), {k: (np.asarray(v).dtype, np.asarray(v).tobytes()) for k, v in b.items()}) for b in feed],
-          {k: np.asarray(v).tobytes() for k, v in params.items()})
+  import jax
+  return ([(sorted(b), type(b).__name__, {k: (np.asarray(v).dtype, np.asarray(v).tobytes()) for k, v in b.items()}) for b in feed],
+          (str(jax.tree_util.tree_structure(params)), [np.asarray(v).tobytes() for v in jax.tree_util.tree_leaves(params)]))
 
 
 def _kept_check_and_store(st, res):
@@ -630,8 +666,9 @@ def _run_config(cfg):
   api = cfg['api']
   form, kw = cfg.get('form', 'list'), bool(cfg.get('kw'))
   res, stats, extra_ok = {}, {}, True
-  feed = [_mk_batch(pool, b, cfg.get('maskdt', 'bool'), cfg.get('arr', 'np'), cfg.get('forder', 0) + j) for j, b in enumerate(batches)]
-  params = {'p': np.zeros(2, np.float32)}
+  feed = [_mk_batch(pool, b, cfg.get('maskdt', 'bool'), cfg.get('arr', 'np'), cfg.get('forder', 0) + j,
+                    cfg.get('layout', 'C'), cfg.get('bkind', 'dict')) for j, b in enumerate(batches)]
+  params = _params(cfg.get('pkind', 'dict'))
   before = _snapshot(feed, params)
   cm = jax.disable_jit() if cfg.get('ctx') == 'nojit' else contextlib.nullcontext()
   with cm:
@@ -1308,7 +1345,8 @@ def describe(case, obs):
   indom = all((math.isfinite(e[0]) and math.isfinite(e[1]) and ((e[0] == 0 and e[1] == 0) or e[1] > 0)) if isinstance(e, (list, tuple))
               else math.isfinite(e) for r in reals for e in r)
   return {'kind': 'eval', 'api': case['api'], 'metric': case['metric'], 'hyp_real_rows_in_domain': indom, 'form': case.get('form', 'list'),
-          'maskdt': case.get('maskdt', 'bool'), 'arrays': case.get('arr', 'np'), 'kw': bool(case.get('kw')),
+          'maskdt': case.get('maskdt', 'bool'), 'arrays': case.get('arr', 'np'), 'layout': case.get('layout', 'C'),
+          'batch_kind': case.get('bkind', 'dict'), 'params_kind': case.get('pkind', 'dict'), 'kw': bool(case.get('kw')),
           'ctx': case.get('ctx', 'jit'), 'pool': case.get('pool', 'std'), 'model': case['model'], 'again': bool(case.get('again')),
           'source': 'explicit' if isinstance(case['batches'], list) else list(case['batches'])[0],
           'batches': min(len(bs), 6), 'real_rows': 'none' if obs['n_real'] == 0 else '1-3' if obs['n_real'] < 4 else '4+',
